@@ -878,3 +878,12 @@ func (c *Config) Bound(v frontend.Variable) *big.Int {
 	}
 	return nil
 }
+
+// CanonBound returns the interval bound of a witness leaf after the run, taking a completed canonical check into account.
+func (c *Config) CanonBound(p *big.Int) *big.Int {
+	b := &base{cfg: c}
+	if _, ok := c.bounds[p]; !ok {
+		return nil
+	}
+	return b.bound(p)
+}
